@@ -14,6 +14,12 @@
 //! requests than the blocking client's worker pool; one request's response forced into each window; positional tokens).
 //! c06_stalled.rs adds the class "fault while ANOTHER task holds the writer in a large send stalled on
 //! backpressure, the peer then lingers": what must fail promptly has to have ended before the peer releases.
+//! c06_hostile.rs adds hostile CONTENT in the frames a healthy client discards (late responses to calls abandoned by
+//! timeout / cancellation, unknown ids, second copies, pushes: long / non-ASCII at every byte alignment / not UTF-8 /
+//! empty query, body and error text), each followed by a probe call that must get its own response.
+//! `EXT_HDRS` extends the malformed-header kinds to the 64-bit extremes of the three length fields (overflowing sums,
+//! sums wrapping to the declared length, consistent-but-impossible lengths, off-by-one at the extremes, one field at
+//! u64::MAX), each as the header alone, header + 3 bytes and header + payload, for all three clients.
 
 use crate::common::*;
 
@@ -36,6 +42,9 @@ mod stalled;
 #[cfg(feature = "net")]
 #[path = "c06_batch.rs"]
 mod batch;
+#[cfg(feature = "net")]
+#[path = "c06_hostile.rs"]
+mod hostile;
 
 #[cfg(feature = "net")]
 pub fn run(args: &Args) -> Report {
@@ -46,6 +55,7 @@ pub fn run(args: &Args) -> Report {
 pub(crate) mod imp {
     use super::batch;
     use super::gates;
+    use super::hostile;
     use super::infra::*;
     use super::stalled;
     use crate::common::*;
@@ -80,6 +90,101 @@ pub(crate) mod imp {
         Huge63Body,
         Huge62Query,
         HugeMaxLen,
+        /// a row of `EXT_HDRS` (the three length fields at the 64-bit extremes) and how much of the
+        /// payload follows the 48 header bytes
+        Ext(u8, Tail),
+    }
+
+    /// What follows the malformed 48-byte header on the wire / inside the binary WebSocket message.
+    #[derive(Clone, Copy, Debug, PartialEq, Eq, Hash)]
+    pub enum Tail {
+        /// the query and body bytes of the response the header was made from
+        Payload,
+        /// nothing: the header alone
+        HeaderOnly,
+        /// three bytes
+        Few,
+    }
+    pub const TAILS: [Tail; 3] = [Tail::Payload, Tail::HeaderOnly, Tail::Few];
+
+    /// Malformed-header kinds at the integer extremes. Each row gives (length, query_length, body_length)
+    /// from the real response's q = query_length and b = body_length; M = u64::MAX, H = 2^63, G = 2^32,
+    /// R = 48 + q + b (the real frame length). None of them satisfies `length == 48 + q + b` over the
+    /// integers, except the `honest:` rows, which declare a frame of >= 2^63 - 1 bytes (never satisfiable;
+    /// the 2^32 rows only for the WebSocket client, where the binary message is complete and far shorter
+    /// than the header says; on a TCP stream a 4 GiB frame that never completes is a silent peer, not a
+    /// malformed frame).
+    pub struct ExtHdr {
+        pub name: &'static str,
+        pub ws_only: bool,
+        pub f: fn(u64, u64) -> (u64, u64, u64),
+    }
+    const M: u64 = u64::MAX;
+    const H: u64 = 1 << 63;
+    const G: u64 = 1 << 32;
+    pub const EXT_HDRS: [ExtHdr; 36] = [
+        // 48 + q + b does not fit in 64 bits
+        ExtHdr { name: "len-max:query-overflows", ws_only: false, f: |_, _| (M, M - 47, 0) },
+        ExtHdr { name: "len-max:body-overflows", ws_only: false, f: |q, _| (M, q, M - 40) },
+        ExtHdr { name: "len-max:q-max+b-max", ws_only: false, f: |_, _| (M, M, M) },
+        ExtHdr { name: "len-max:q-2^63+b-2^63", ws_only: false, f: |_, _| (M, H, H) },
+        ExtHdr { name: "len-max-1:sum-overflows", ws_only: false, f: |_, b| (M - 1, M - 47, b) },
+        ExtHdr { name: "len-2^63:sum-overflows", ws_only: false, f: |_, _| (H, H, H) },
+        ExtHdr { name: "len-2^63+1:sum-overflows", ws_only: false, f: |_, _| (H + 1, H + 1, H) },
+        ExtHdr { name: "len-2^63-1:sum-overflows", ws_only: false, f: |_, _| (H - 1, H, H - 1) },
+        ExtHdr { name: "len-2^32+1:sum-overflows", ws_only: false, f: |_, b| (G + 1, M, b) },
+        ExtHdr { name: "len-2^32-1:sum-overflows", ws_only: false, f: |q, _| (G - 1, q, M) },
+        // the sum wraps modulo 2^64 to exactly the declared length
+        ExtHdr { name: "wraps-to-len-max", ws_only: false, f: |_, _| (M, M, M - 47) },
+        ExtHdr { name: "wraps-to-len-max-1", ws_only: false, f: |_, _| (M - 1, M, M - 48) },
+        ExtHdr { name: "wraps-to-len-2^63", ws_only: false, f: |_, _| (H, M, H - 47) },
+        ExtHdr { name: "wraps-to-len-2^63+1", ws_only: false, f: |_, _| (H + 1, M, H - 46) },
+        ExtHdr { name: "wraps-to-len-2^63-1", ws_only: false, f: |_, _| (H - 1, M, H - 48) },
+        ExtHdr { name: "wraps-to-len-2^32+1", ws_only: false, f: |_, _| (G + 1, M, G - 46) },
+        ExtHdr { name: "wraps-to-len-2^32-1", ws_only: false, f: |_, _| (G - 1, M, G - 48) },
+        ExtHdr { name: "wraps-to-real-length:halves", ws_only: false, f: |q, b| (48 + q + b, q + H, b + H) },
+        ExtHdr { name: "wraps-to-real-length:q-max", ws_only: false, f: |q, b| (48 + q + b, M, q + b + 1) },
+        // consistent over the integers, absurdly large
+        ExtHdr { name: "honest:len-max-1", ws_only: false, f: |q, _| (M - 1, q, M - 1 - 48 - q) },
+        ExtHdr { name: "honest:len-2^63", ws_only: false, f: |q, _| (H, q, H - 48 - q) },
+        ExtHdr { name: "honest:len-2^63+1", ws_only: false, f: |q, _| (H + 1, q, H + 1 - 48 - q) },
+        ExtHdr { name: "honest:len-2^63-1", ws_only: false, f: |q, _| (H - 1, q, H - 1 - 48 - q) },
+        ExtHdr { name: "honest:len-2^63:query", ws_only: false, f: |_, b| (H, H - 48 - b, b) },
+        ExtHdr { name: "honest:len-2^32+1", ws_only: true, f: |q, _| (G + 1, q, G + 1 - 48 - q) },
+        ExtHdr { name: "honest:len-2^32-1", ws_only: true, f: |q, _| (G - 1, q, G - 1 - 48 - q) },
+        // off by one at the extremes
+        ExtHdr { name: "len-max:sum-is-max-1", ws_only: false, f: |q, _| (M, q, M - 49 - q) },
+        ExtHdr { name: "len-max:sum-is-max+1", ws_only: false, f: |q, _| (M, q, M - 47 - q) },
+        ExtHdr { name: "len-max-1:sum-is-max", ws_only: false, f: |q, _| (M - 1, q, M - 48 - q) },
+        ExtHdr { name: "len-2^63:sum-is-2^63+1", ws_only: false, f: |q, _| (H, q, H - 47 - q) },
+        ExtHdr { name: "len-2^63:sum-is-2^63-1", ws_only: false, f: |q, _| (H, q, H - 49 - q) },
+        ExtHdr { name: "len-2^32+1:sum-is-2^32+2", ws_only: false, f: |q, _| (G + 1, q, G + 2 - 48 - q) },
+        ExtHdr { name: "len-2^32-1:sum-is-2^32-2", ws_only: false, f: |q, _| (G - 1, q, G - 2 - 48 - q) },
+        // one field at the maximum, the others honest
+        ExtHdr { name: "q-max-alone", ws_only: false, f: |q, b| (48 + q + b, M, b) },
+        ExtHdr { name: "b-max-alone", ws_only: false, f: |q, b| (48 + q + b, q, M) },
+        ExtHdr { name: "len-max:q-max-alone", ws_only: false, f: |_, _| (M, M, 0) },
+    ];
+
+    /// The extended malformed-header faults for a client kind (every row, every tail for the WebSocket
+    /// client; TCP clients: the rows a stream reader can reject from the header alone with every tail, the
+    /// consistent-but-impossible rows with the payload following, like the older Huge* kinds).
+    pub fn ext_faults_for(kind: Kind) -> Vec<Fault> {
+        let mut v = vec![];
+        for (i, e) in EXT_HDRS.iter().enumerate() {
+            if e.ws_only && kind != Kind::Ws {
+                continue;
+            }
+            for t in TAILS {
+                // a stream reader may wait for the (short) query a consistent header announces before it
+                // meets the impossible body length: without those bytes the peer is merely silent
+                if kind != Kind::Ws && e.name.starts_with("honest:") && t != Tail::Payload {
+                    continue;
+                }
+                v.push(Fault::Bad(BadHdr::Ext(i as u8, t)));
+            }
+        }
+        v
     }
     pub const BADS: [BadHdr; 11] = [
         BadHdr::Magic0,
@@ -125,6 +230,15 @@ pub(crate) mod imp {
                 Fault::CloseAfterRead => "close-after-read".into(),
                 Fault::RstAfterRead => "rst-after-read".into(),
                 Fault::Cut(c) => format!("cut@{c:?}"),
+                Fault::Bad(BadHdr::Ext(i, t)) => format!(
+                    "bad-header:{}{}",
+                    EXT_HDRS[*i as usize].name,
+                    match t {
+                        Tail::Payload => "",
+                        Tail::HeaderOnly => "+header-only",
+                        Tail::Few => "+3-bytes",
+                    }
+                ),
                 Fault::Bad(b) => format!("bad-header:{b:?}"),
                 Fault::WsText => "ws-text-frame".into(),
                 Fault::WsCloseFrame => "ws-close-frame".into(),
@@ -175,7 +289,15 @@ pub(crate) mod imp {
     pub fn bad_frame(kind: BadHdr, frame: &[u8]) -> Vec<u8> {
         let mut h = SpecHeader::decode(frame);
         let (q, b) = (h.query_length, h.body_length);
+        let mut tail = Tail::Payload;
         match kind {
+            BadHdr::Ext(i, t) => {
+                let (l, ql, bl) = (EXT_HDRS[i as usize].f)(q, b);
+                h.length = l;
+                h.query_length = ql;
+                h.body_length = bl;
+                tail = t;
+            }
             BadHdr::Magic0 => h.spec = 0,
             BadHdr::MagicOff => h.spec = 0x1508,
             BadHdr::LenPlus1 => h.length += 1,
@@ -209,7 +331,11 @@ pub(crate) mod imp {
             }
         }
         let mut out = h.encode().to_vec();
-        out.extend_from_slice(&frame[48..]);
+        match tail {
+            Tail::Payload => out.extend_from_slice(&frame[48..]),
+            Tail::HeaderOnly => {}
+            Tail::Few => out.extend_from_slice(&frame[48..frame.len().min(51)]),
+        }
         out
     }
 
@@ -604,6 +730,72 @@ pub(crate) mod imp {
         drop(cli);
     }
 
+    // -------------------------------------------------------------- malformed headers at the integer extremes
+
+    /// Every row of `EXT_HDRS` x every tail (header alone / header + 3 bytes / header + the payload) for each
+    /// client, as cells of the same fault matrix (same oracle: in-flight and later calls error within the
+    /// window, the subscriber's stream ends, nothing panics). The (in-flight, timeout-mode) pairs rotate over
+    /// the rows so that a quick run spends a few cells per row and still meets every pair on every client.
+    fn run_ext_headers(env: &mut Env, rep: &mut Report, st: &mut Stats, args: &Args) {
+        // the table must say what its comments say (independent 128-bit arithmetic of oracle.rs)
+        for e in EXT_HDRS.iter() {
+            for (q, b) in [(9u64, 20u64), (9, 75), (300, 0)] {
+                let (length, query_length, body_length) = (e.f)(q, b);
+                let h = SpecHeader { length, spec: crate::oracle::SPEC, version: 1, query_length, body_length, ..Default::default() };
+                let honest = e.name.starts_with("honest:");
+                if h.consistent() != honest || (honest && length < (1 << 32) - 1) {
+                    rep.inconclusive(format!("harness: extended header row `{}` is not what its name says for q={q}, b={b}", e.name));
+                    return;
+                }
+            }
+        }
+        let thorough = args.thorough();
+        let ns: Vec<usize> = if thorough { vec![0, 1, 2, 3, 5, 8, 13, 16] } else { vec![0, 1, 2, 5, 16] };
+        let tmodes: Vec<TMode> = if thorough { vec![TMode::None, TMode::All, TMode::Mixed] } else { vec![TMode::None, TMode::All] };
+        let combos: Vec<(usize, TMode)> = ns.iter().flat_map(|n| tmodes.iter().map(move |t| (*n, *t))).collect();
+        let per_fault = args.budget(2, 3) as usize;
+        let mut rng = Rng::new(args.seed ^ 0xC06_E47);
+        let mut case = 1_000_000u64;
+        let mut skipped = 0u64;
+        for (ki, kind) in KINDS.into_iter().enumerate() {
+            // one hang witness per client: the remaining rows of a client whose calls already hang would each
+            // cost the full window and use up the hang budget of the other clients
+            let mut kind_hung = false;
+            for (fi, fault) in ext_faults_for(kind).into_iter().enumerate() {
+                for j in 0..per_fault {
+                    case += 1;
+                    if kind_hung {
+                        rep.count("extreme_header_cells_skipped_after_a_hang_on_that_client", 1);
+                        continue;
+                    }
+                    if env.stop() {
+                        skipped += 1;
+                        continue;
+                    }
+                    let hangs_before = env.hangs_left;
+                    // 7 is coprime to the number of pairs: consecutive faults walk through all of them
+                    let (n, tmode) = combos[(fi * 7 + j * 3 + ki + (args.seed as usize % 97)) % combos.len()];
+                    let mut r = rng.fork(case);
+                    let ts = std::time::Instant::now();
+                    run_cell(env, rep, st, &Cell { kind, fault, n, tmode }, &mut r, case);
+                    st.timed(format!("fault {} {} n={n} {}", kind.name(), fault.name(), tmode.name()), ts);
+                    rep.count("extreme_header_cells_executed", 1);
+                    kind_hung = env.hangs_left < hangs_before;
+                    if kind == Kind::Ws {
+                        rep.count("extreme_header_cells_executed_ws", 1);
+                    }
+                }
+            }
+        }
+        rep.set("extreme_header_rows", json!(EXT_HDRS.iter().map(|e| e.name).collect::<Vec<_>>()));
+        if skipped > 0 {
+            rep.count("extreme_header_cells_not_run", skipped);
+            if rep.violations.is_empty() {
+                rep.inconclusive(format!("{skipped} cells of the extreme-header table were not executed (wall cap / hang budget)"));
+            }
+        }
+    }
+
     // -------------------------------------------------------------- run
 
     pub fn run(args: &Args) -> Report {
@@ -621,7 +813,13 @@ pub(crate) mod imp {
              task-aborted / future-dropped at every probe point, each followed by a retry under the SAME id; plus every fault that \
              leaves the socket open (and peer close/RST) delivered while ANOTHER task holds the writer in a large send stalled on \
              backpressure (peer stopped reading) and the peer then lingers 6 s: subscriber end-of-stream, in-flight / queued / later \
-             calls must have ended before the peer releases, the stalled sender ends with an error afterwards. distinct = executed (kind, fault, in-flight, timeout-mode) cells and (kind, order|trigger, \
+             calls must have ended before the peer releases, the stalled sender ends with an error afterwards; plus 36 malformed-header rows at the 64-bit \
+             extremes (length u64::MAX / MAX-1 / 2^63(+-1) / 2^32(+-1) with query/body lengths whose sum overflows, wraps to exactly the declared or the real \
+             length, is consistent but impossible, or is off by one; one field at u64::MAX) x (header alone, +3 bytes, +payload) as cells of the same matrix; plus \
+             hostile content in discarded frames on a healthy connection (late responses to calls abandoned by timeout or abort after the write, unknown ids, \
+             second copies of delivered responses, pushes; query / body / error text 0..8 KiB, 2-/3-/4-byte characters at every byte alignment up to 4 KiB, \
+             invalid UTF-8, control characters), a probe call after every frame must be written, answered and return its own token, bystanders in flight \
+             throughout return theirs. distinct = executed (kind, fault, in-flight, timeout-mode) cells and (kind, order|trigger, \
              bystanders) schedules",
         );
         let stage = args.stage.as_str();
@@ -638,9 +836,9 @@ pub(crate) mod imp {
         quiet_panics(true);
         probes_install();
         let t0 = std::time::Instant::now();
-        // wall caps (normal runs stay below: quick ~28 s, thorough ~6.8 min)
+        // wall caps (normal runs stay below: quick ~35 s, thorough ~7.3 min)
         let fault_cap = Duration::from_secs(if thorough { 250 } else { 100 });
-        env.deadline = t0 + Duration::from_secs(if thorough { 450 } else { 160 });
+        env.deadline = t0 + Duration::from_secs(if thorough { 490 } else { 160 });
 
         if matches!(stage, "main" | "faults") {
             let ns: Vec<usize> = if thorough { (0..=16).collect() } else { vec![0, 1, 2, 5, 16] };
@@ -679,6 +877,10 @@ pub(crate) mod imp {
                 }
             }
         }
+        // malformed headers at the 64-bit extremes (own case numbers and random streams: the table above keeps its choices)
+        if matches!(stage, "main" | "faults" | "exthdr") {
+            run_ext_headers(&mut env, &mut rep, &mut st, args);
+        }
         if matches!(stage, "main" | "races") && !env.stop() {
             gates::run_races(&mut env, &mut rep, &mut st, &mut rng, args);
         }
@@ -698,6 +900,10 @@ pub(crate) mod imp {
         }
         if matches!(stage, "main" | "forward") && !env.stop() {
             gates::run_fwd_cancels(&mut env, &mut rep, &mut st, &mut rng, args);
+        }
+        // hostile content in the frames a healthy client discards (own random stream)
+        if matches!(stage, "main" | "hostile") && !env.stop() {
+            hostile::run_hostile(&mut env, &mut rep, &mut st, args);
         }
         // faults delivered while ANOTHER task holds the writer in a stalled large send (one concurrent batch;
         // own random stream; runs even when the wall cap of the older stages is used up)
